@@ -315,6 +315,24 @@ func runBuilder(c bCase) harness.Result {
 		if err != nil {
 			return harness.Fail("ExtractFields failed on a complete reply: %v", err)
 		}
+		// the same response held as a struct value (what a handler or a test double builds) instead of the pointer the parsers return
+		if val := derefResp(resp); val != nil {
+			if _, ok := val.(modbus.CoilsResponse); !ok {
+				return harness.Fail("the response value %T does not offer the coil lookup (modbus.CoilsResponse) that its pointer offers", val)
+			}
+			fv2, err := r.ExtractFields(val, c.Lenient)
+			if err != nil {
+				return harness.Fail("ExtractFields failed on the response passed by value (%T): %v", val, err)
+			}
+			if len(fv2) != len(fv) {
+				return harness.Fail("ExtractFields returned %d fields for the response value, %d for its pointer", len(fv2), len(fv))
+			}
+			for i := range fv {
+				if fv[i].Value != fv2[i].Value || (fv[i].Error == nil) != (fv2[i].Error == nil) {
+					return harness.Fail("field %s reads %v from the response pointer and %v from the same response passed by value", fv[i].Field.Name, fv[i].Value, fv2[i].Value)
+				}
+			}
+		}
 		payload := dataOf(resp)
 		if len(payload) > 1 {
 			multi = true
@@ -370,6 +388,20 @@ func runBuilder(c bCase) harness.Result {
 	res := verdict(fmt.Sprintf("builder fc%d %s fields at %v", c.FC, c.Framing, c.Addrs), o, []string{"builder", fmt.Sprintf("requests:%d", len(reqs))})
 	res.NonTrivial = res.NonTrivial && multi
 	return res
+}
+
+func derefResp(resp packet.Response) packet.Response {
+	switch r := resp.(type) {
+	case *packet.ReadCoilsResponseTCP:
+		return *r
+	case *packet.ReadCoilsResponseRTU:
+		return *r
+	case *packet.ReadDiscreteInputsResponseTCP:
+		return *r
+	case *packet.ReadDiscreteInputsResponseRTU:
+		return *r
+	}
+	return nil
 }
 
 func dataOf(resp packet.Response) []byte {
